@@ -26,6 +26,7 @@ pub mod completions;
 pub mod cli;
 pub mod equality;
 pub mod schedules;
+pub mod goforms;
 pub mod scoping;
 pub mod sepcomp;
 pub mod staleness;
@@ -55,6 +56,7 @@ pub fn all() -> Vec<Box<dyn Family>> {
         Box::new(patterns::Patterns),
         Box::new(evalorder::EvalOrder),
         Box::new(schedules::Schedules),
+        Box::new(goforms::GoForms),
         Box::new(numbers::Numbers),
         Box::new(vecs::Vecs),
         Box::new(closures::Closures),
